@@ -21,3 +21,5 @@ def run(project, rep):
     rep.run(T.t_r2, project, rep)
     rep.run(T.t_r3, project, rep)
     rep.run(T.t_r4, project, rep)
+    rep.rule("B-R12", "what is validated is the text of the file: the header lines are decoded one character per byte, nothing dropped (the chunk clauses of H-R1) - a decoder that leaves bytes out turns `TYPE\\xb91` into the valid token TYPE1")
+    rep.run_only(("H-R1",), H.h_r1, project, rep, constructs=("parse_header:rawheader-starts-with-first-line-as-read", "parse_header:rawheader-extended-with-lines-as-read"))
